@@ -125,6 +125,7 @@ struct WSession {
     std::string tag;
     std::vector<Block> keep;            // argument blocks kept alive until the end of the run
     uint64_t ncalls = 0;
+    Bytes shadow;                       // what the caller itself has put into the destination (fill pattern, values prepared in place)
     WSession(Trace &t, Sink &s, std::map<std::string, uint64_t> &c) : tr(t), sink(s), cnt(c) {}
     ~WSession();
     void setup(uint64_t prefill);
@@ -138,3 +139,11 @@ struct WSession {
 const char *err_name(uint32_t e);
 bool is_advancing(int code);
 bool is_restart(int code);
+
+// process-wide configuration the application may have chosen: a locale other than "C" for the duration of one run
+#include <clocale>
+struct LocaleScope {
+    bool on;
+    explicit LocaleScope(bool enable) : on(enable) { if (on) setlocale(LC_ALL, "C.UTF-8"); }
+    ~LocaleScope() { if (on) setlocale(LC_ALL, "C"); }
+};
